@@ -718,4 +718,162 @@ theorem getIntervalTicks32Bit_eq (R : Rnd) (ts index ipd tfs : ℤ) (h1 : 1 ≤ 
   rw [if_neg (by omega), if_neg (by omega)]
 
 
+/-! ## the repaired decoder is monotone in the ticks -/
+
+/-- shape of the repaired decoder's result in its two branches (used for monotonicity) -/
+theorem decode_shape (R : Rnd) (ipd k : ℤ) (h1 : 1 ≤ ipd) (hk0 : 0 ≤ k) (hk1 : k < 4294967296) :
+    sub0 R.r ipd k = R.r (1000000000 * R.r (fractionalSeconds R.r ipd k - (⌊fractionalSeconds R.r ipd k⌋ : ℚ))) ∧
+    0 ≤ sub0 R.r ipd k ∧
+    (adj R.r ipd k = true → 1000000000 ≤ sub0 R.r ipd k ∧
+      wholeOff R.r ipd k = ⌊fractionalSeconds R.r ipd k⌋ + 1 ∧ nanosRaw R.r ipd k = 0) ∧
+    (adj R.r ipd k = false → sub0 R.r ipd k < 1000000000 ∧
+      wholeOff R.r ipd k = ⌊fractionalSeconds R.r ipd k⌋ ∧
+      nanosRaw R.r ipd k = ⌊R.r (sub0 R.r ipd k + 1/2)⌋) := by
+  obtain ⟨hTlo, hThi, hT⟩ := tps_bounds R ipd h1
+  have hT0 : (0:ℚ) < tps R ipd := by linarith
+  have hkq0 : (0:ℚ) ≤ k := by exact_mod_cast hk0
+  have hkq1 : (k:ℚ) ≤ 4294967295 := by
+    have : k ≤ 4294967295 := by omega
+    exact_mod_cast this
+  have hq0 : (0:ℚ) ≤ (k:ℚ) / tps R ipd := by positivity
+  have hq1 : (k:ℚ) / tps R ipd ≤ 86400.5 := by
+    rw [div_le_iff₀ hT0]; nlinarith
+  have hupos := u_pos
+  have hu : u = 1 / 9007199254740992 := rfl
+  have hfs_eq := fractionalSeconds_eq R ipd k
+  set fs := fractionalSeconds R.r ipd k with hfs
+  have hfs0 : 0 ≤ fs := by rw [hfs_eq]; exact R.nonneg hq0
+  have hfs1 : fs < 86401 := by
+    have := R.hi_abs hq0 hq1
+    rw [hfs_eq]; rw [hu] at this; linarith
+  have hfl0 : 0 ≤ ⌊fs⌋ := Int.floor_nonneg.mpr hfs0
+  have hfl_le : (⌊fs⌋ : ℚ) ≤ fs := Int.floor_le fs
+  have hfl_lt : fs < ⌊fs⌋ + 1 := Int.lt_floor_add_one fs
+  have hfl1 : ⌊fs⌋ ≤ 86400 := by
+    have : ((⌊fs⌋ : ℤ) : ℚ) < ((86401 : ℤ) : ℚ) := by push_cast; linarith
+    have : ⌊fs⌋ < 86401 := by exact_mod_cast this
+    omega
+  have hg0 : 0 ≤ fs - ⌊fs⌋ := by linarith
+  have hg1 : fs - ⌊fs⌋ ≤ 1 := by linarith
+  set y := R.r (fs - (⌊fs⌋ : ℚ)) with hy
+  have hy0 : 0 ≤ y := R.nonneg hg0
+  have hy1 : y ≤ 1 := by
+    have := R.mono _ _ hg1; rw [R.one] at this; exact this
+  have hz0 : (0:ℚ) ≤ 1000000000 * y := by positivity
+  have hz1 : (1000000000:ℚ) * y ≤ 1000000000 := by linarith
+  have hsub0_eq : sub0 R.r ipd k = R.r (1000000000 * y) := by
+    unfold sub0 subseconds0; rw [nanosecondC_eq]; rfl
+  set s0 := sub0 R.r ipd k with hs0
+  have hs0_0 : 0 ≤ s0 := by rw [hsub0_eq]; exact R.nonneg hz0
+  have hs0_1 : s0 ≤ 1000000000 := by
+    have := R.mono _ _ hz1
+    rw [show (1000000000:ℚ) = ((1000000000:ℕ):ℚ) by norm_num, R.nat _ (by norm_num)] at this
+    rw [hsub0_eq]; push_cast at this; exact this
+  have hadj : adj R.r ipd k = decide ((1000000000:ℚ) ≤ s0) := by
+    unfold adj; rw [nanosecondC_eq]
+  refine ⟨hsub0_eq, hs0_0, ?_, ?_⟩
+  · intro hadjT
+    have hb : (1000000000:ℚ) ≤ s0 := by rw [hadj] at hadjT; exact of_decide_eq_true hadjT
+    have hs0e : s0 = 1000000000 := le_antisymm hs0_1 hb
+    have hW : wholeOff R.r ipd k = ⌊fs⌋ + 1 := by
+      unfold wholeOff; rw [if_pos hadjT]
+      have : R.r (((fractionalSeconds R.r ipd k).floor : ℚ) + 1) = ((⌊fs⌋ + 1 : ℤ) : ℚ) := by
+        have := R.int (⌊fs⌋ + 1) (by rw [abs_of_nonneg (by omega)]; norm_num; omega)
+        push_cast at this ⊢; exact this
+      rw [this, toUint64_of_range (by exact_mod_cast (by omega : (0:ℤ) ≤ ⌊fs⌋ + 1))
+        (by exact_mod_cast (by omega : ⌊fs⌋ + 1 < 4294967296)), Int.floor_intCast]
+    have hN : nanosRaw R.r ipd k = 0 := by
+      unfold nanosRaw subAdj; rw [if_pos hadjT, ← hs0, hs0e, nanosecondC_eq, sub_self, R.zero]
+      have h0 : (0:ℚ) ≤ 0 + 1/2 := by norm_num
+      have b := R.hi _ h0
+      rw [toUint32_of_range (R.nonneg h0) (by rw [hu] at b; linarith), floor_half]
+    exact ⟨hb, hW, hN⟩
+  · intro hadjF
+    have hb : s0 < 1000000000 := by
+      rw [hadj] at hadjF; exact not_le.mp (of_decide_eq_false hadjF)
+    have hW : wholeOff R.r ipd k = ⌊fs⌋ := by
+      unfold wholeOff; rw [hadjF]; simp only [Bool.false_eq_true, if_false]
+      rw [toUint64_of_range (by exact_mod_cast hfl0) (by exact_mod_cast (by omega : ⌊fs⌋ < 4294967296))]
+      exact Int.floor_intCast _
+    have hv0 : (0:ℚ) ≤ s0 + 1/2 := by linarith
+    have hvb := R.hi _ hv0
+    have hvlt : R.r (s0 + 1/2) < 1000000001 := by
+      have : (s0 + 1/2) * (1 + u) < 1000000001 := by rw [hu]; nlinarith
+      linarith
+    have hN : nanosRaw R.r ipd k = ⌊R.r (s0 + 1/2)⌋ := by
+      unfold nanosRaw subAdj; rw [hadjF]; simp only [Bool.false_eq_true, if_false]
+      rw [← hs0, toUint32_of_range (R.nonneg hv0) (by linarith)]
+    exact ⟨hb, hW, hN⟩
+
+/-- `fractionalSeconds` is monotone in the ticks -/
+theorem fractionalSeconds_mono (R : Rnd) (ipd k1 k2 : ℤ) (h1 : 1 ≤ ipd) (hk : k1 ≤ k2) :
+    fractionalSeconds R.r ipd k1 ≤ fractionalSeconds R.r ipd k2 := by
+  obtain ⟨_, _, hT⟩ := tps_bounds R ipd h1
+  have hT0 : (0:ℚ) < tps R ipd := by linarith
+  rw [fractionalSeconds_eq, fractionalSeconds_eq]
+  apply R.mono
+  apply div_le_div_of_nonneg_right _ hT0.le
+  exact_mod_cast hk
+
+/-- **The repaired decoder is monotone in the ticks**, for every rounding operator -/
+theorem fixedOff_mono (R : Rnd) (ipd k1 k2 : ℤ) (h1 : 1 ≤ ipd) (h0 : 0 ≤ k1) (hk : k1 ≤ k2)
+    (h2 : k2 < 4294967296) : fixedOff R.r ipd k1 ≤ fixedOff R.r ipd k2 := by
+  have hk1r : k1 < 4294967296 := by omega
+  have hk20 : 0 ≤ k2 := by omega
+  obtain ⟨_, _, _, _, hN10, hN11, _⟩ := decode_core R ipd k1 h1 h0 hk1r
+  obtain ⟨_, _, _, _, hN20, hN21, _⟩ := decode_core R ipd k2 h1 hk20 h2
+  obtain ⟨hs1eq, _, hT1, hF1⟩ := decode_shape R ipd k1 h1 h0 hk1r
+  obtain ⟨hs2eq, _, hT2, hF2⟩ := decode_shape R ipd k2 h1 hk20 h2
+  have hfs := fractionalSeconds_mono R ipd k1 k2 h1 hk
+  have hFl : ⌊fractionalSeconds R.r ipd k1⌋ ≤ ⌊fractionalSeconds R.r ipd k2⌋ := Int.floor_le_floor hfs
+  unfold fixedOff
+  -- wholeOff k2 ≥ floor fs2 and total1 ≤ (floor fs1 + 1) * 1e9
+  have hW2 : ⌊fractionalSeconds R.r ipd k2⌋ ≤ wholeOff R.r ipd k2 := by
+    cases h : adj R.r ipd k2 with
+    | true => have := (hT2 h).2.1; omega
+    | false => have := (hF2 h).2.1; omega
+  have htot1 : wholeOff R.r ipd k1 * 1000000000 + nanosRaw R.r ipd k1
+      ≤ (⌊fractionalSeconds R.r ipd k1⌋ + 1) * 1000000000 := by
+    cases h : adj R.r ipd k1 with
+    | true => obtain ⟨_, a, b⟩ := hT1 h; rw [a, b]; omega
+    | false => obtain ⟨_, a, _⟩ := hF1 h; rw [a]; omega
+  by_cases hlt : ⌊fractionalSeconds R.r ipd k1⌋ < ⌊fractionalSeconds R.r ipd k2⌋
+  · -- different whole seconds
+    have : (⌊fractionalSeconds R.r ipd k1⌋ + 1) * 1000000000 ≤ wholeOff R.r ipd k2 * 1000000000 := by
+      have : ⌊fractionalSeconds R.r ipd k1⌋ + 1 ≤ wholeOff R.r ipd k2 := by omega
+      omega
+    omega
+  · -- same whole second
+    have hFeq : ⌊fractionalSeconds R.r ipd k1⌋ = ⌊fractionalSeconds R.r ipd k2⌋ := by omega
+    have hsub : sub0 R.r ipd k1 ≤ sub0 R.r ipd k2 := by
+      rw [hs1eq, hs2eq, hFeq]
+      apply R.mono
+      apply mul_le_mul_of_nonneg_left _ (by norm_num)
+      apply R.mono
+      linarith
+    cases ha1 : adj R.r ipd k1 with
+    | true =>
+      obtain ⟨hb1, a1, b1⟩ := hT1 ha1
+      have ha2 : adj R.r ipd k2 = true := by
+        cases h : adj R.r ipd k2 with
+        | true => rfl
+        | false => have := (hF2 h).1; linarith
+      obtain ⟨_, a2, b2⟩ := hT2 ha2
+      rw [a1, b1, a2, b2, hFeq]
+    | false =>
+      obtain ⟨_, a1, b1⟩ := hF1 ha1
+      cases ha2 : adj R.r ipd k2 with
+      | true =>
+        obtain ⟨_, a2, b2⟩ := hT2 ha2
+        rw [a1, a2, b2, hFeq]; omega
+      | false =>
+        obtain ⟨_, a2, b2⟩ := hF2 ha2
+        rw [a1, a2, b1, b2, hFeq]
+        have : ⌊R.r (sub0 R.r ipd k1 + 1/2)⌋ ≤ ⌊R.r (sub0 R.r ipd k2 + 1/2)⌋ := by
+          apply Int.floor_le_floor
+          apply R.mono
+          linarith
+        omega
+
+
 end Mkts.Ticks
